@@ -61,10 +61,24 @@ Section Crypto.
                    if rv =? BGPSEC_VALID then BGPSEC_VALID else key_loop rest h g rv
     end.
 
+  (* Which of the keys found for the SKI are tried.
+     [by_asn = false] is /repo as it stands: all of them.
+     [by_asn = true] is the code after proposed_fixes/C11-ski-only-lookup.diff: a second cursor
+     tmp_sec walks data->path alongside tmp_sig, keys whose AS number differs from tmp_sec->asn are
+     skipped, and retval starts as RTR_BGPSEC_ROUTER_KEY_NOT_FOUND.  ([tmp_sec] = [] is NULL.) *)
+  Definition as_filter (by_asn : bool) (found : list router_key) (tmp_sec : list sps)
+    : option (list router_key) :=
+    if by_asn then
+      match tmp_sec with
+      | [] => None
+      | sec :: _ => Some (filter (fun r => rk_asn r =? sp_asn sec) found)
+      end
+    else Some found.
+
   (* for (offset = 0, next_offset = 0; offset <= size && retval == VALID; offset += next_offset)
      entered with retval == VALID.  [tmp_sig] = [] is the NULL pointer. *)
-  Fixpoint vloop (t : list router_key) (alg : Z) (s : stream) (tmp_sig : list sgs) (offset : Z)
-    : option Z :=
+  Fixpoint vloop_gen (by_asn : bool) (t : list router_key) (alg : Z) (s : stream)
+           (tmp_sig : list sgs) (tmp_sec : list sps) (offset : Z) : option Z :=
     match tmp_sig with
     | [] => if offset <=? st_size s then None (* tmp_sig->next with tmp_sig == NULL *)
             else Some BGPSEC_VALID
@@ -74,14 +88,16 @@ Section Crypto.
           if negb (alg =? ALGORITHM_SUITE_1) then Some BGPSEC_UNSUPPORTED_ALGORITHM_SUITE
           else
             let h := sha256 curr in
-            let retval := key_loop (search_by_ski t (sg_ski g)) h g BGPSEC_SUCCESS in
+            do keys <- as_filter by_asn (search_by_ski t (sg_ski g)) tmp_sec;
+            let retval := key_loop keys h g
+                                   (if by_asn then BGPSEC_ROUTER_KEY_NOT_FOUND else BGPSEC_SUCCESS) in
             if retval =? BGPSEC_VALID
-            then vloop t alg s rest (wrapu 32 (offset + next_offset g rest))
+            then vloop_gen by_asn t alg s rest (tl tmp_sec) (wrapu 32 (offset + next_offset g rest))
             else Some retval
         else Some BGPSEC_VALID
     end.
 
-  Definition validate (d : bgpsec_c) (t : list router_key) : option Z :=
+  Definition validate_gen (by_asn : bool) (d : bgpsec_c) (t : list router_key) : option Z :=
     match b_path d, b_sigs d with
     | [], _ | _, [] => Some BGPSEC_INVALID_ARGUMENTS
     | _ :: _, _ :: _ =>
@@ -94,8 +110,13 @@ Section Crypto.
           if negb (rk =? BGPSEC_SUCCESS) then Some rk
           else
             do s <- aligned_stream d VALIDATION;
-            vloop t (b_alg d) s (b_sigs d) 0
+            vloop_gen by_asn t (b_alg d) s (b_sigs d) (b_path d) 0
     end.
+
+  (* rtr_bgpsec_validate_as_path as it is in /repo today *)
+  Definition validate := validate_gen false.
+  (* ... and after the proposed fix *)
+  Definition validate_fixed := validate_gen true.
 
   Definition sig_ok (spki h sg : list Z) : bool :=
     load_pub spki && (ecdsa_verify spki h sg =? 1).
